@@ -135,6 +135,42 @@ func (m *manyDescCollector) Describe(ch chan<- *prometheus.Desc) {
 }
 func (m *manyDescCollector) Collect(ch chan<- prometheus.Metric) {}
 
+// lockedTG is a TransactionalGatherer whose state is protected by a read lock held from Gather until done.
+type lockedTG struct {
+	mu   sync.RWMutex
+	gen  int
+	fams int
+}
+
+func (l *lockedTG) Gather() ([]*dto.MetricFamily, func(), error) {
+	l.mu.RLock()
+	var out []*dto.MetricFamily
+	for i := 0; i < l.fams; i++ {
+		n := fmt.Sprintf("locked_%d", i)
+		t := dto.MetricType_GAUGE
+		v := float64(l.gen)
+		out = append(out, &dto.MetricFamily{Name: &n, Type: &t, Metric: []*dto.Metric{{Gauge: &dto.Gauge{Value: &v}}}})
+	}
+	return out, l.mu.RUnlock, nil
+}
+
+// writeWithin takes the write lock (in a helper goroutine, so that a leaked read lock is reported instead of hanging).
+func (l *lockedTG) writeWithin(d time.Duration) bool {
+	got := make(chan struct{})
+	go func() {
+		l.mu.Lock()
+		l.gen++
+		l.mu.Unlock()
+		close(got)
+	}()
+	select {
+	case <-got:
+		return true
+	case <-time.After(d):
+		return false
+	}
+}
+
 func runChild(c *cli.Ctx) error {
 	r := emit.NewRng(c.Seed)
 	w := emit.NewWriter(c.Out, "C10", "registry-histories")
@@ -275,7 +311,10 @@ func runChild(c *cli.Ctx) error {
 							}
 						}
 					case 0:
-						cv.WithLabelValues(a, b).Inc()
+						// the caller's variadic slice stays the caller's: it is overwritten right after the call
+						lv := []string{a, b}
+						cv.WithLabelValues(lv...).Inc()
+						lv[0], lv[1] = "scribbled", "scribbled"
 					case 1:
 						cv.With(prometheus.Labels{"a": a, "b": b}).Add(float64(rr.Intn(5)) / 2)
 					case 2:
@@ -387,6 +426,49 @@ func runChild(c *cli.Ctx) error {
 		close(start)
 		wg.Wait()
 		srv.Close()
+		// --- transactional gatherers: a MultiTRegistry over the registry and two gatherers that hold a read lock
+		// until their done callback runs (one of them exposes nothing); scrapes race a writer that needs the
+		// write lock. A done callback that is dropped leaves the lock held: the writer blocks (watchdog) and the
+		// final TryLock fails.
+		{
+			tgs := []*lockedTG{{fams: 0}, {fams: 2}}
+			multi := prometheus.NewMultiTRegistry(prometheus.ToTransactionalGatherer(reg), tgs[0], tgs[1])
+			th := promhttp.HandlerForTransactional(multi, promhttp.HandlerOpts{})
+			var wgT sync.WaitGroup
+			for g := 0; g < 4; g++ {
+				g := g
+				wgT.Add(1)
+				go func() {
+					defer wgT.Done()
+					for i := 0; i < 25; i++ {
+						atomic.AddInt64(&totalOps, 1)
+						switch g {
+						case 0:
+							for _, tg := range tgs {
+								if !tg.writeWithin(10 * time.Second) {
+									atomic.AddInt64(&panics, 1)
+									panicMsg.Store("a transactional gatherer's done callback was never called: its lock is still held after Gather+done")
+									return
+								}
+							}
+						case 1:
+							rec := httptest.NewRecorder()
+							th.ServeHTTP(rec, httptest.NewRequest("GET", "/metrics", nil))
+						default:
+							_, done, _ := multi.Gather()
+							done()
+						}
+					}
+				}()
+			}
+			wgT.Wait()
+			for _, tg := range tgs {
+				if !tg.writeWithin(10 * time.Second) {
+					atomic.AddInt64(&panics, 1)
+					panicMsg.Store("a transactional gatherer's done callback was never called: its lock is still held after quiescence")
+				}
+			}
+		}
 		client.CloseIdleConnections()
 		// goroutine leak check after quiescence
 		leaked := true
